@@ -136,7 +136,25 @@ def _acc_invariant(E, acc, accvar, b0, i, width):
     ]
 
 
-def loop_prime(E, shiftvar, accname, which):
+def while_roles(relpath, qualname):
+    """Roles of the loop-carried variables of the zero-skipping loops, read off the real AST (robust against renamed
+    locals): per `while V:` loop in source order -> (shift variable V, accumulator A of `A &= seq[I]`, index I)."""
+    import ast
+    from pyvc import extract
+    fn = extract.get_function(relpath, qualname).node
+    out = []
+    for node in sorted((n for n in ast.walk(fn) if isinstance(n, ast.While)), key=lambda n: n.lineno):
+        sv = node.test.id if isinstance(node.test, ast.Name) else None
+        acc = idx = None
+        for st in ast.walk(node):
+            if isinstance(st, ast.AugAssign) and isinstance(st.op, ast.BitAnd) and isinstance(st.target, ast.Name) \
+                    and isinstance(st.value, ast.Subscript) and isinstance(st.value.slice, ast.Name):
+                acc, idx = st.target.id, st.value.slice.id
+        out.append((sv, acc, idx))
+    return out
+
+
+def loop_prime(E, shiftvar, accname, which, idxname='i'):
     """The zero-skipping loop: `shiftvar` is shifted right, `accname` is and-ed with other[i] (which='O') or
     self[i] (which='S').  Ghost b0 = value of shiftvar at loop entry (recorded by on_entry)."""
     acc, width = (E.accO, E.len_self) if which == 'O' else (E.accS, E.len_other)
@@ -144,8 +162,9 @@ def loop_prime(E, shiftvar, accname, which):
 
     def inv(e):
         b0 = e._path.ghost[gname]
-        return (_shift_invariant(E, getattr(e, shiftvar), b0, e.i)
-                + _acc_invariant(E, acc, getattr(e, accname), b0, e.i, width))
+        i = getattr(e, idxname)
+        return (_shift_invariant(E, getattr(e, shiftvar), b0, i)
+                + _acc_invariant(E, acc, getattr(e, accname), b0, i, width))
 
     def on_entry(p, env):
         p.ghost[gname] = env[shiftvar].t
@@ -178,12 +197,14 @@ def _closure_unit(name):
             path.assume(E.in_domain(b))
             env = dict(E.free_vars())
             env['bitset'] = IntV(b, 'SelfBits')
-            if name == 'prime':
-                loops = {0: loop_prime(E, 'bitset', 'prime', 'O')}
-            elif name == 'double':
-                loops = {0: loop_prime(E, 'bitset', 'prime', 'O'), 1: loop_prime(E, 'prime', 'double', 'S')}
-            else:
-                loops = {0: loop_prime(E, 'bitset', 'prime', 'O'), 1: loop_prime(E, 'bitset', 'double', 'S')}
+            roles = while_roles('concepts/matrices.py', 'Vectors._pair_with.<locals>.' + name)
+            want = 1 if name == 'prime' else 2
+            if len(roles) != want or any(None in r for r in roles):
+                from pyvc.engine import Unsupported
+                raise Unsupported('expected %d zero-skipping while loops of the form `while V: ... A &= seq[I]`' % want)
+            loops = {0: loop_prime(E, roles[0][0], roles[0][1], 'O', roles[0][2])}
+            if want == 2:
+                loops[1] = loop_prime(E, roles[1][0], roles[1][1], 'S', roles[1][2])
 
             def value_post(path, tag, r, f):
                 w = path.fresh_int('wext')
